@@ -102,6 +102,9 @@ def gen_layout(r, shared=None, zero=None, **kw):
     return {"zero": zero, "slots": slots, "blocks": blocks}
 
 
+DATASTORE_FAILURES = [RuntimeError, KeyError, IndexError, ValueError, AttributeError, TypeError, OSError, LookupError]
+
+
 class FaultyContext(object):
     """ModbusSlaveContext whose datastore calls raise according to a plan (True = raise)."""
 
@@ -117,7 +120,9 @@ class FaultyContext(object):
         self.ticks += 1
         if self.plan and self.plan.pop(0):
             self.raised = True
-            raise RuntimeError("injected datastore failure")
+            # every class a failing datastore naturally raises (dict-, list-, file- or network-backed blocks): all of
+            # them are "the datastore raised" to the server, none is "no such unit"
+            raise DATASTORE_FAILURES[self.ticks % len(DATASTORE_FAILURES)]("injected datastore failure")
 
     def validate(self, fx, address, count=1):
         self._tick()
